@@ -100,6 +100,33 @@ def c14_extra(ctx):
     return out
 
 
+def c18_extra(ctx):
+    out = {"coverage": {}, "violations": [], "broken": [], "evaluations": 0, "samples": [], "distinct": []}
+    binary, err = proc.build_binary(ctx)
+    if not binary:
+        out["broken"].append({"what": "correspondence", "name": "solstat binary does not build", "log": err})
+        return out
+    root = proc.scratch_root()
+    try:
+        rnd = random.Random(ctx["seed"])
+        n = 80 if ctx["tier"] == "thorough" else 12
+        cases = proc.c18_cases(ctx, binary, root, rnd, n, use_strace=(ctx["tier"] == "thorough"))
+    finally:
+        shutil.rmtree(root, ignore_errors=True)
+    for c in cases:
+        if c["problems"]:
+            out["violations"].append({"kind": "PROC", "group": "effects", "why": "; ".join(c["problems"]), "case": c})
+        out["distinct"].append(hashlib.sha1(repr((c["mode"], c["stale_report"], c["runs"], c["report_sha1"])).encode()).hexdigest())
+    out["evaluations"] = sum(c["runs"] for c in cases)
+    out["agree"] = sum(c["runs"] for c in cases if not c["problems"])
+    out["oracle_ok"] = sum(1 for c in cases if not c["problems"])
+    out["coverage"]["binary_runs"] = out["evaluations"]
+    out["coverage"]["modes"] = sorted({c["mode"] for c in cases})
+    out["coverage"]["strace_runs"] = sum(1 for c in cases if c["strace"])
+    out["samples"] = cases[:3]
+    return out
+
+
 PROPS = {
     "C01": {
         "theorems": {
@@ -368,6 +395,21 @@ PROPS = {
             "clap and the toml/serde deserialiser are not modelled (exercised through the binary)",
             "pattern names are ASCII (Rust's to_lowercase is Unicode-aware: U+212A KELVIN SIGN lower-cases to 'k'); the model lower-cases ASCII letters only",
             "the documentation tables and Solstat.toml are read by the translator on every run",
+        ],
+    },
+    "C18": {
+        "theorems": {
+            "Solstat.Props.C18": ["run_frame", "run_failure_writes_nothing", "run_writes_render", "old_report_overwritten",
+                                  "report_name_ineligible", "effects_complete"],
+            "Solstat.Props.C16": ["ineligible_inert", "ineligible_cannot_fail"],
+        },
+        "obs": [("render", [])],
+        "kinds": ["FULLREPORT"],
+        "extra": c18_extra,
+        "rule": "a case is a scratch tree with a chosen working directory (parent of ./contracts, outside with --path, equal to the analysed directory, inside a sub-directory of it), optionally a stale report, and 2-3 repeated runs of the built binary with a byte snapshot of the whole tree before and after; thorough adds strace of every path opened for writing; plus in-process generate_report over a stale file",
+        "assumptions": [
+            "the file system is an idealised finite map (partial writes, symlinks, permissions, concurrent modification are not modelled): what std::fs::write and the OS do is observed, not proved (runtime part)",
+            "the analyses are read-only: theorem effects_complete on the regenerated inventory of fs / process / env call sites",
         ],
     },
 }
